@@ -577,6 +577,10 @@ pub enum C19Case {
     Mutations { idx: usize },
     /// generated grammar schemas, block `block` of 64
     Grammar { block: usize },
+    /// the bedtobigbed tool: schema generated from the first BED line
+    ToolGenerated { extra: usize, threads: usize },
+    /// the bedtobigbed tool with --autosql
+    ToolSupplied { idx: usize },
 }
 
 pub struct C19;
@@ -769,6 +773,12 @@ impl Check for C19 {
             // spread over the generator's output
             v.push(C19Case::Mutations { idx: idx * (g.len() / core.min(g.len())) });
         }
+        for extra in 0..=40 {
+            v.push(C19Case::ToolGenerated { extra, threads: if extra % 2 == 0 { 1 } else { 3 } });
+        }
+        for idx in 0..supplied_schemas().len() {
+            v.push(C19Case::ToolSupplied { idx });
+        }
         let maxlen = if quick { 5 } else { 7 };
         for len in 0..=maxlen {
             if len == 0 {
@@ -827,6 +837,11 @@ impl Check for C19 {
                 if *idx == 0 {
                     c19_roundtrip(None, "", 3, "library default", out);
                 }
+            }
+            C19Case::ToolGenerated { extra, threads } => crate::clifam::c19_tool(*extra, None, *threads, out),
+            C19Case::ToolSupplied { idx } => {
+                let (text, n) = supplied_schemas()[*idx].clone();
+                crate::clifam::c19_tool(1, Some((text, n)), 2, out)
             }
             C19Case::Grammar { block } => {
                 let g = grammar_schemas();
